@@ -133,7 +133,7 @@ func NewRunner(dir string, p *Program) (*Runner, *Mismatch) {
 	if err != nil {
 		return nil, &Mismatch{Step: -1, Kind: "open-error", Key: -1, Msg: err.Error(), Ctx: "initial"}
 	}
-	return &Runner{Dir: dir, P: p, Eng: e, Model: Model{}, past: map[string][][]byte{}, LastMaint: "none"}, nil
+	return &Runner{Dir: dir, P: p, Eng: e, Model: Model{}, past: map[string][][]byte{}, LastMaint: "none", NoQuiesce: p.Cfg.NoQuiesce}, nil
 }
 
 // Close closes the engine (ignoring errors).
